@@ -1245,7 +1245,7 @@ class MindsDBParser(Parser):
         if hasattr(p, 'identifier'):
             entity.alias = p.identifier
         if hasattr(p, 'dquote_string'):
-            entity.alias = Identifier(p.dquote_string)
+            entity.alias = Identifier(parts=[p.dquote_string] if p.dquote_string else None)  # one name, whatever it contains
         return entity
 
     # native query
@@ -1331,9 +1331,9 @@ class MindsDBParser(Parser):
         # if col.alias:
         #     raise ParsingException(f'Attempt to provide two aliases for {str(col)}')
         if hasattr(p, 'dquote_string'):
-            alias = Identifier(p.dquote_string)
+            alias = Identifier(parts=[p.dquote_string] if p.dquote_string else None)  # one name, whatever it contains
         elif hasattr(p, 'quote_string'):
-            alias = Identifier(p.quote_string)
+            alias = Identifier(parts=[p.quote_string] if p.quote_string else None)
         else:
             alias = p.identifier
         col.alias = alias
@@ -1764,6 +1764,9 @@ class MindsDBParser(Parser):
     @_('id', 'dquote_string')
     def identifier(self, p):
         value = p[0]
+        if hasattr(p, 'dquote_string'):
+            # a quoted name is one part, whatever it contains
+            return Identifier(parts=[value] if value else None)
         return Identifier.from_path_str(value)
 
     @_('PARAMETER')
